@@ -113,7 +113,7 @@ func connect(transport string, rng *rand.Rand, progress *int64, fin func(qnet.En
 }
 
 func c10(c *wk.Ctx) {
-	c.Note("rule", "each plan: one connection over a transport (harness stream with yields and read fragmentation, net.Pipe, unix, tcp, tls, fd-passing pipe), 2-16 sender goroutines released by a barrier, each sending its own numbered messages (payload 0 B - 256 KiB, content a keyed function of (sender, seq)) through EndPoint.Send; the receiving endpoint has an 'all' handler plus 2-5 handlers with overlapping filters (sender set, type, seq parity), queues sized for the whole traffic. Oracle: the 'all' handler gets every (sender, seq) exactly once with intact payload and each sender's messages in order; every other handler gets exactly its filter applied to that sequence, in the same order; loss is decided by the quiescence detector. Distinct non-trivial = distinct (transport, plan) with at least two senders whose messages interleaved at the receiver.")
+	c.Note("rule", "each plan: one connection over a transport (harness stream with yields and read fragmentation, net.Pipe, unix, tcp, tls, fd-passing pipe), 2-16 sender goroutines released by a barrier, each sending its own numbered messages (payload 0 B - 256 KiB, content a keyed function of (sender, seq)) through EndPoint.Send; the receiving endpoint has an 'all' handler plus 2-5 handlers with overlapping filters (sender set, type, seq parity), queues sized for the whole traffic; in a third of the plans a further handler with a full one-slot queue selects everything as well. Oracle: the 'all' handler gets every (sender, seq) exactly once with intact payload and each sender's messages in order; every other handler gets exactly its filter applied to that sequence, in the same order; loss is decided by the quiescence detector. Distinct non-trivial = distinct (transport, plan) with at least two senders whose messages interleaved at the receiver.")
 	plansPer := c.Pick(8, 120)
 	c.Cases("plan", len(c10transports)*plansPer, func(i int, rng *rand.Rand) {
 		transport := c10transports[i%len(c10transports)]
@@ -147,6 +147,10 @@ func c10one(c *wk.Ctx, i int, rng *rand.Rand, transport string) {
 			handlers = append(handlers, &c10handler{name: fmt.Sprintf("seq%%2=%d", par), filter: func(h *qnet.Header) bool { return h.ID%2 == par }})
 		}
 	}
+	// in a third of the plans a sibling handler with a one-slot queue that nobody drains selects
+	// everything too: the handlers that do have room must be unaffected
+	stuckSibling := rng.Intn(3) == 0
+	stuckQueue := make(chan *qnet.Message, 1)
 	var wgCons sync.WaitGroup
 	var allCount int64
 	for _, h := range handlers {
@@ -172,6 +176,9 @@ func c10one(c *wk.Ctx, i int, rng *rand.Rand, transport string) {
 		}(h)
 	}
 	snd, recv, cleanup, err := connect(transport, rng, &progress, func(e qnet.EndPoint) {
+		if stuckSibling {
+			e.MakeHandler(func(hdr *qnet.Header) (bool, bool) { return true, true }, stuckQueue, nil)
+		}
 		for _, h := range handlers {
 			h := h
 			e.MakeHandler(func(hdr *qnet.Header) (bool, bool) { return h.filter(hdr), true }, h.queue, nil)
@@ -217,7 +224,10 @@ func c10one(c *wk.Ctx, i int, rng *rand.Rand, transport string) {
 	}
 	snd.Close()
 	recv.Close()
-	detail := map[string]interface{}{"transport": transport, "senders": nSenders, "per_sender": perSender, "max_payload": maxLen, "handlers": len(handlers)}
+	detail := map[string]interface{}{"transport": transport, "senders": nSenders, "per_sender": perSender, "max_payload": maxLen, "handlers": len(handlers), "full_sibling_handler": stuckSibling}
+	if stuckSibling {
+		c.Count("plans_with_a_full_sibling_handler", 1)
+	}
 	if v == stuck.Watchdog {
 		c.Inconclusive("plan", i, "watchdog")
 		return
